@@ -205,7 +205,9 @@ func copyToSelectedData[T any](remoteWrite bool, existingData []T, filterData *F
 				continue
 			}
 
+			saved := existingData[i]
 			CopyNonNilDataFromItemToItem(newData, &existingData[i])
+			restoreWriteCheck(remoteWrite, saved, &existingData[i])
 			break
 		}
 	}
@@ -231,7 +233,9 @@ func copyToAllData[T any](remoteWrite bool, existingData []T, newData *T) ([]T, 
 			continue
 		}
 
+		saved := existingData[i]
 		CopyNonNilDataFromItemToItem(newData, &existingData[i])
+		restoreWriteCheck(remoteWrite, saved, &existingData[i])
 	}
 
 	return existingData, success
@@ -266,7 +270,9 @@ func deleteFilteredData[T any](remoteWrite bool, existingData []T, filterData *F
 
 			// remove the fields defined in element if the item matches
 			if filterData.SelectorMatch(util.Ptr(existingData[i])) {
+				saved := existingData[i]
 				RemoveElementFromItem(&existingData[i], filterData.Elements)
+				restoreWriteCheck(remoteWrite, saved, &existingData[i])
 				result = append(result, existingData[i])
 			} else {
 				result = append(result, existingData[i])
@@ -282,12 +288,30 @@ func deleteFilteredData[T any](remoteWrite bool, existingData []T, filterData *F
 			// only elements filter
 
 			// remove the fields defined in element
+			saved := existingData[i]
 			RemoveElementFromItem(&existingData[i], filterData.Elements)
+			restoreWriteCheck(remoteWrite, saved, &existingData[i])
 			result = append(result, existingData[i])
 		}
 	}
 
 	return result, success
+}
+
+// A remote write never alters the "writecheck" tagged field: put back the value the item had
+func restoreWriteCheck[T any](remoteWrite bool, saved T, destination *T) {
+	if !remoteWrite {
+		return
+	}
+
+	sV := reflect.ValueOf(saved)
+	dV := reflect.ValueOf(destination).Elem()
+	for _, fieldName := range fieldNamesWithEEBusTag(EEBusTagWriteCheck, saved) {
+		f := dV.FieldByName(fieldName)
+		if f.IsValid() && f.CanSet() {
+			f.Set(sV.FieldByName(fieldName))
+		}
+	}
 }
 
 func isFieldValueNil(field interface{}) bool {
